@@ -1439,6 +1439,11 @@ M('C12', 'exp. decaying coupling attaches the JW factor to the right operator (r
   "                op_i = example_site_i.multiply_op_names([op_i, 'JW'])", "                op_j = example_site_j.multiply_op_names(['JW', op_j])",
   'JW-left-operator')
 
+M('C12', 'term_list_correlation_function_right looks the string operator up with a stale need_JW (round-5 seed b)', 'tenpy/networks/mps.py',
+  "                for key, CL in CLs.items():\n                    need_JW = key[0]\n                    CL = npc.tensordot(CL, B_ket, axes=['vR', 'vL'])\n                    if opstr_fill[need_JW] != 'Id':\n                        opstr_k = self.get_site(k).get_op(opstr_fill[need_JW])\n",
+  "                opstr_k = None\n                if opstr_fill[need_JW] != 'Id':\n                    opstr_k = self.get_site(k).get_op(opstr_fill[need_JW])\n                for key, CL in CLs.items():\n                    CL = npc.tensordot(CL, B_ket, axes=['vR', 'vL'])\n                    if opstr_k is not None:\n",
+  'LOOP-stale-read')
+
 # ---------------------------------------------------------------- C16 / C19
 M('C16', 'GMRES restart: relative residual norm used for normalisation (round-3 seed b)', KRY,
   """        self.total_error.append([npc.norm(self.rs[-1]) / self.b_norm])
